@@ -120,14 +120,16 @@ func printAll(cfg *printer.Config, cmds []ast.Command, w *bytes.Buffer) (err err
 }
 
 type limitWriter struct {
-	n   int
-	err error
+	n      int
+	err    error
+	failed bool // a write was refused
 }
 
 func (l *limitWriter) Write(p []byte) (int, error) {
 	if len(p) > l.n {
 		n := l.n
 		l.n = 0
+		l.failed = true
 		return n, l.err
 	}
 	l.n -= len(p)
@@ -234,6 +236,12 @@ func runPrint(c printCase, cfgs []cfgRec) (o printObs) {
 					var err error
 					for _, c := range cmds {
 						if err = cfg.Fprint(lw, c); err != nil {
+							break
+						}
+						if lw.failed {
+							// the writer refused a write of this very call, and the call reported success
+							o.WFBad = append(o.WFBad, badRec{Cfg: cr.ID, What: "writer failing after " + strconv.Itoa(k) + " of " + strconv.Itoa(out1.Len()) + " bytes: a write was refused during Fprint, Fprint returned nil"})
+							err = errWrite
 							break
 						}
 						if _, err = lw.Write([]byte{'\n'}); err != nil {
